@@ -90,7 +90,7 @@ def one_upgrad(ctx: Ctx):
     ratios = []
     for reg in ladder:
         A = UPGrad(pref_vector=None if pv is None else torch.tensor([float(v) for v in pv], dtype=torch.float64),
-                   norm_eps=1e-9, reg_eps=reg)
+                   norm_eps=1e-3, reg_eps=reg)    # a visible norm_eps: mixing it up with reg_eps changes the ladder
         xs = [A((c[:, None] * Jt)) for c in (c1, c2, a * c1 + b * c2)]
         Jc = (a * c1 + b * c2)[:, None] * Jt
         s = float(torch.linalg.svdvals(Jc)[0])
